@@ -21,6 +21,11 @@ WHAT = {
     "C12:error-path-leaves-mapping": "after newSession returned an error the process still maps the session's shared memory",
     "C12:error-path-leaves-file": "after newSession returned an error the session's /dev/shm file is still there",
     "C12:error-path-leaves-memfd-descriptor": "after newSession returned an error the client's memfd is still open",
+    "C12:failed-handshake-releases-sibling-session-memory": "a session establishment that FAILED took the shared buffer memory away from an ESTABLISHED sibling session on the same buffer path (table reference count / mapping / file changed, or the sibling stopped working)",
+    "C12:failed-handshake-leaves-stale-registry-entry": "after a failed handshake (no other user of the path) the process-wide buffer-manager table still holds an entry for the path",
+    "C12:establishment-after-failed-handshake-has-no-mapped-memory": "a new establishment on the path of an earlier failed handshake reports success but the buffer memory is not mapped / does not carry data",
+    "C12:establishment-after-failed-handshake-fails": "a new establishment on the path of an earlier failed handshake fails",
+    "C12:extract-metadata-panics": "extractShmMetadata panicked on a malformed body instead of returning an error",
     "C12:late-peer-after-timeout-leaks-mapping": "a peer that sends valid metadata after the server's InitializeTimeout: the initialiser goroutine, never cancelled, maps the shared memory after newSession returned the timeout error; nobody unmaps it",
     "C12:error-path-leaves-received-descriptor": "server received an SCM_RIGHTS message with the wrong number of descriptors: it reports an error and never closes the descriptor(s) it did receive",
 }
@@ -48,8 +53,8 @@ def b(x):
 def case_to_coq(c):
     k = c["kind"]
     if k == "codec":
-        return ("HCodec {| cc_ver := %d; cc_ty := %d; cc_q := %s; cc_b := %s; cc_bytes := %s; cc_body := %s; cc_panic := %s; cc_ext_b := %s; cc_ext_q := %s |}"
-                % (c["ver"], c["ty"], zl(c["q"]), zl(c["b"]), zl(c["bytes"]), zl(c["body"]), b(c["panic"]), zl(c["ext_b"]), zl(c["ext_q"])))
+        return ("HCodec {| cc_ver := %d; cc_ty := %d; cc_q := %s; cc_b := %s; cc_bytes := %s; cc_body := %s; cc_err := %s; cc_ext_b := %s; cc_ext_q := %s |}"
+                % (c["ver"], c["ty"], zl(c["q"]), zl(c["b"]), zl(c["bytes"]), zl(c["body"]), b(c["ext_err"]), zl(c["ext_b"]), zl(c["ext_q"])))
     if k == "peer":
         files = []
         if c["file_q"]:
@@ -65,7 +70,7 @@ def case_to_coq(c):
     return None
 
 
-MISMATCH = {1: "generateShmMetadata's bytes differ from the model's generate", 2: "extractShmMetadata's result / panic differs from the model's extract",
+MISMATCH = {1: "generateShmMetadata's bytes differ from the model's generate", 2: "extractShmMetadata's result / error differs from the model's extract",
             11: "frames written by the real end differ from the model's", 12: "outcome class of the real end differs from the model's",
             13: "negotiated version of the real end differs from the model's", 14: "the real server mapped / did not map unlike the model",
             21: "client outcome differs from the model's run", 22: "server outcome differs from the model's run",
@@ -125,7 +130,7 @@ def brief(c):
     if c.get("frames"):
         d["frames_written_by_the_real_end"] = c["frames"]
     if c["kind"] == "codec":
-        d.update({k: c[k] for k in ("ver", "ty", "q", "b", "body", "panic", "ext_b", "ext_q")})
+        d.update({k: c[k] for k in ("ver", "ty", "q", "b", "body", "ext_err", "ext_b", "ext_q")})
     return d
 
 
@@ -184,7 +189,7 @@ def check(run):
     # paths of 2^16 bytes and more do not survive the round trip; check that prediction on the real code
     for c in long_codec:
         lq, lb = len(c["q"]), len(c["b"])
-        survives = (not c["panic"]) and c["ext_q"] == c["q"] and c["ext_b"] == c["b"]
+        survives = (not c["ext_err"]) and c["ext_q"] == c["q"] and c["ext_b"] == c["b"]
         untouched = "truncated-body" not in (c.get("feat") or []) and "corrupted-length" not in (c.get("feat") or [])
         if untouched and survives != (lq < 65536 and lb < 65536):
             run.add_corr_break("D: case %s: round trip of paths of %d / %d bytes %s, the model predicts the opposite"
